@@ -13,8 +13,9 @@ EXPLANATION = (
     "the bytes removed from the expression equal the amount subtracted from every remaining span, so every remaining span still delimits the same text, "
     "and the returned prefix text is the one computed by invariant_text_prefix; (prefix) invariant_text_prefix appends text only for text-invariant "
     "tokens and stops at the last component boundary, over all invariance / boundary patterns of lists up to length 3 (4 in the thorough tier).  Not "
-    "decided: that a flag among the popped tokens still applies to the displayed postfix (`a/(?i)b/c*` -> `c*`): flags are not tokens.")
-RULES = "C08.law (TABLE on a catalogue: languages of glob, prefix and postfix), C08.recompile (PROV), C08.unroot + C08.bytes (EFFECT), C08.prefix (TABLE)"
+    "decided: that a flag among the popped tokens still applies to the displayed postfix (`a/(?i)b/c*` -> `c*`): flags are not tokens.  "
+    "(text) for ~850 texts with an invariant prefix in front of a variant postfix - flags before and inside the prefix, escapes, multi-byte text, invariant groups, rooted and `..` prefixes - the parser (its THIR, nom model) and Tokenized::partition are both evaluated, borrowed and owned: the expression of the postfix is a suffix of the text, its tokens are the remaining tokens, every remaining span delimits the text it delimited before, and building the displayed postfix again (the parser once more) gives the same tokens with the same spans.  This rule takes the spans from the parser instead of assuming their shape.")
+RULES = "C08.law (TABLE on a catalogue: languages of glob, prefix and postfix), C08.recompile (PROV), C08.unroot + C08.bytes (EFFECT), C08.prefix (TABLE), C08.text (TABLE on a text catalogue: parser + partition, the displayed postfix built again)"
 
 
 def tok(kind_leaf, start, length):
@@ -48,6 +49,8 @@ def run(ctx):
     rule_prefix(F, R, 3 if ctx.tier == "quick" else 4)
     from . import exhaust
     exhaust.report_query(F, R, "C08.law", ctx.tier, "partition", 10000, 1500)
+    from . import parsecat
+    parsecat.report_partition(F, R, "C08.text")
 
 
 def rule_partition(F, R):
